@@ -170,6 +170,30 @@ NameErrorOnlyAuth(zs, q, res) ==
                       /\ \E n \in { q.name } \cup { res.rrs[i].target : i \in DOMAIN res.rrs } :
                             ZoneOfName(zs, n) = {z} /\ NameError \in Rfc1034(z, n, q.type)
 
+\* C01: an alias chain that ENDS at a name owned by an authoritative local zone: nothing from a LESS specific zone
+\* is used for that name - in particular an SOA carried by the result (the authority of a negative or authoritative
+\* answer) is the SOA of the zone that owns the final name, not of the zone the chain started in.  (What records are
+\* said to exist at that name is Provenance; chains cut short by the recursion limit are left alone.)
+FinalName(q, rrs) ==
+    LET cn == SelectSeq(rrs, LAMBDA r : r.type = "CNAME") IN
+    IF cn = <<>> THEN q.name ELSE cn[Len(cn)].target
+
+ChainEndOwned(zs, q, res) ==
+    (q.type \notin {"CNAME", "ANY"} /\ res.kind \in {"Authoritative", "NonAuthoritative", "NameError"} /\ res.soa # NoRR) =>
+        LET T == FinalName(q, res.rrs)
+            zsel == ZoneOfName(zs, T)
+            nAlias == Cardinality({ i \in DOMAIN res.rrs : res.rrs[i].type = "CNAME" })
+        IN (T # q.name /\ nAlias + 2 < Limit /\ zsel # {} /\ (CHOOSE z \in zsel : TRUE).auth
+            /\ D1Free(CHOOSE z \in zsel : TRUE) /\ Owned(CHOOSE z \in zsel : TRUE, T, q.type)
+            /\ ~\E i \in DOMAIN res.rrs : res.rrs[i].type = "CNAME" /\ res.rrs[i].name = T) =>
+              res.soa = SoaRR(CHOOSE z \in zsel : TRUE)
+
+\* C01: no upstream server is asked about a name an authoritative local zone owns
+AskedUpstreamOK(zs, qname, qtype) ==
+    LET zsel == ZoneOfName(zs, qname) IN
+    ~(zsel # {} /\ (CHOOSE z \in zsel : TRUE).auth /\ D1Free(CHOOSE z \in zsel : TRUE)
+      /\ Owned(CHOOSE z \in zsel : TRUE, qname, qtype))
+
 \* C10: alias chain in order from the question name, then only records of the asked type at the final target
 ChainOk(q, rrs) ==
     q.type \notin {"CNAME", "ANY"} =>
